@@ -646,7 +646,14 @@ class Interp:
         raise exc
 
     def x_For(self, st, env):
-        it = self.iterate(self.eval(st.iter, env))
+        from .models import SymRange
+        itv = self.eval(st.iter, env)
+        if isinstance(itv, SymRange):
+            inv = self._loop_invariant(st, env)
+            if inv is None:
+                raise Unsupported("for-loop over range(symbolic n) needs an invariant")
+            return self.run_invariant_for(inv, st, env, itv.n)
+        it = self.iterate(itv)
         n = 0
         broke = False
         for item in it:
@@ -714,6 +721,33 @@ class Interp:
             raise PathAbort()          # end of the inductive-step path
         if self.truth(self.eval(st.test, env)):
             raise PathAbort()
+        self.exec_block(st.orelse, env)
+
+    def run_invariant_for(self, inv, st, env, n):
+        """ `for x in range(n)` with symbolic n, cut by an invariant over the ghost iteration counter k (0 <= k <= n) """
+        V = inv.V
+        for name, cond in inv.clauses(env.vars, 0):
+            V.check(f"loop-inv-init:{name}", cond)
+        inv.havoc(V, env.vars)
+        c = sym.ctx()
+        k = c.int(c.fresh_name('k'))
+        V.assume(sym.And(k >= 0, k <= n))
+        inv.k = k
+        for name, cond in inv.clauses(env.vars, k):
+            V.assume(cond)
+        if c.choose():
+            V.assume(k < n)
+            self.assign(st.target, k, env)
+            try:
+                self.exec_block(st.body, env)
+            except _Break:
+                raise Unsupported("break inside a loop cut by an invariant")
+            except _Continue:
+                pass
+            for name, cond in inv.clauses(env.vars, k + 1):
+                V.check(f"loop-inv-preserved:{name}", cond)
+            raise PathAbort()
+        V.assume(k == n)
         self.exec_block(st.orelse, env)
 
     def _loop_invariant(self, st, env):
